@@ -76,3 +76,15 @@ Print Assumptions C04_written_header_is_current_and_layered_flag.
 (* non-vacuity: the example tree of the writer theorem is read back by the model reader *)
 Example C04_read_back_nonvacuous : exists t x', ser_ti ex_ti None = Ok t /\ deser_ti t = Ok x'.
 Proof. eexists. eexists. split; vm_compute; reflexivity. Qed.
+
+(* [stage2]: whatever the reader returns for a table the writer produced carries the written stage2 images (a falsy entry is not
+   written and is read as None); nothing before [stage2] creates that section and nothing after it (media, general) touches it *)
+From PM Require Import Proofs.TreeInfoStage2.
+Theorem C04_stage2_read_back :
+  forall x mv t x', ser_ti x mv = Ok t -> deser_ti t = Ok x' ->
+  let m := getf (ti_stage2 x) (F"mainimage") in
+  let i := getf (ti_stage2 x) (F"instimage") in
+  getf (ti_stage2 x') (F"mainimage") = (if truthy m then m else PNone) /\
+  getf (ti_stage2 x') (F"instimage") = (if truthy i then i else PNone).
+Proof. exact stage2_read_back. Qed.
+Print Assumptions C04_stage2_read_back.
